@@ -47,7 +47,9 @@ class Scheduler:
         sch = self
 
         class FakeThread:
-            def __init__(self, target=None, args=(), kwargs=None):
+            def __init__(self, target=None, args=(), kwargs=None, daemon=None, name=None, group=None):
+                # the constructor accepts what threading.Thread accepts (daemon= / name= as keyword arguments are
+                # harmless spellings of `t.daemon = True`); the stand-in thread is a daemon either way
                 self.daemon = True
                 sch.real = _threading.Thread(target=target, args=args, kwargs=kwargs or {}, daemon=True)
 
